@@ -10,6 +10,12 @@ from rs2v import consts_lite
 
 BINS = [b for b in ["h_cltv", "h_deadline"] if os.path.exists(os.path.join(core.HARNESS, "src", "bin", b + ".rs"))]
 LEVEL = "proof"
+MANIFEST = {
+    "category": "proof",
+    "text": "Coq theorems over constants/predicates regenerated from the Rust source each run (all heights, expiries, deltas, confirmation delays up to the stated bound), plus functional correspondence of every predicate against the real functions and an end-to-end deadline sweep on real nodes.",
+    "note": "Trusted: Coq kernel, rs2v extraction, hooks; hypothesis: transactions confirm within MAX_BLOCKS_FOR_CONF. Monitor/manager wiring of the predicates is validated end-to-end, not proved.",
+    "technique": "machine-checked proof in Coq (lia over regenerated constants and predicates) + differential correspondence",
+}
 FEATURES = ["std", "_test_utils", "_verif_hooks"]
 
 CONST_ITEMS = [("lightning/src/chain/channelmonitor.rs", n) for n in [
